@@ -1332,7 +1332,8 @@ def meta(tier):
                 'solver x sign pattern of (last iterate - start) x early-stop flag + '
                 'executed-line signature of the solver functions',
         'bounds': {'N': N, 'steps': cut(STEPS), 'step_pairs': cut(STEP_PAIRS),
-                   'starts': cut(STARTS), 'operators': (DOPS + SQOPS if deep else QOPS + SQOPS[:2]),
+                   'starts': cut(STARTS),
+                   'operators': (DOPS + SQOPS if deep else QOPS + SQOPS[:2]),
                    'operators_small_pools': DOPS + SQOPS + ['D3', 'I4', 'P23', 'P33', 'Sq3',
                                                             'Sym3'],
                    'functionals': dict((k, _pool(k, deep)) for k in FPOOL),
